@@ -106,7 +106,8 @@ theorem eqInt_valid (par : Parent ℝ) (s : DD ℝ) (hn : 1 ≤ s.n) (hp : 0 ≤
     nClassesOk (eqInt par s) = true ∧ probsNonneg (eqInt par s) = true ∧ probsSumOne 0 (eqInt par s) = true ∧
     boundsMonoInDom (eqInt par s) = true ∧ valuesStrictMono (eqInt par s) = true ∧ valuesInClass (eqInt par s) = true ∧
     (∀ pm ∈ (eqInt par s).probs.zip (pairs (eqInt par s).allBounds),
-        pm.1 * (par.P s.dom.hi - par.P s.dom.lo) = par.P pm.2.2 - par.P pm.2.1) := by
+        pm.1 * (par.P s.dom.hi - par.P s.dom.lo) = par.P pm.2.2 - par.P pm.2.1) ∧
+    TMap.Sorted s.prec (eqInt par s).dist := by
   have hn' : (0 : ℝ) < s.n := by exact_mod_cast hn
   obtain ⟨hall, hdist, hnn, hdom, hprec, _, _⟩ := eqInt_spec par s hn hp hw
   set w := (s.dom.hi - s.dom.lo) / (s.n : ℝ) with hwdef
@@ -128,7 +129,7 @@ theorem eqInt_valid (par : Parent ℝ) (s : DD ℝ) (hn : 1 ≤ s.n) (hp : 0 ≤
     unfold DD.cats TMap.keys; rw [hdist, List.map_map]; rfl
   have hpairs : pairs (eqInt par s).allBounds = (List.range' 0 s.n).map (fun i => (F i, F (i + 1))) := by
     rw [hall, pairs_map_range']
-  refine ⟨?_, ?_, ?_, ?_, ?_, ?_, ?_⟩
+  refine ⟨?_, ?_, ?_, ?_, ?_, ?_, ?_, ?_⟩
   · -- n classes
     simp only [nClassesOk, Bool.and_eq_true, beq_iff_eq]
     constructor
@@ -181,5 +182,13 @@ theorem eqInt_valid (par : Parent ℝ) (s : DD ℝ) (hn : 1 ≤ s.n) (hp : 0 ≤
     obtain ⟨i, _, rfl⟩ := List.mem_map.1 hpm
     simp only
     exact div_mul_cancel₀ _ hcpos.ne'
+  · -- comparator order
+    unfold TMap.Sorted
+    rw [hdist, List.pairwise_map]
+    refine (List.pairwise_lt_range' (s := 0) (n := s.n) (step := 1) (by omega)).imp ?_
+    intro i j hij
+    have : (i : ℝ) + 1 ≤ (j : ℝ) := by exact_mod_cast hij
+    show s.dom.lo + ((i : ℝ) + 1 / 2) * w < s.dom.lo + ((j : ℝ) + 1 / 2) * w - s.prec
+    nlinarith
 
 end Bpp.Discretize
